@@ -197,8 +197,38 @@ class PEval:
     def mk(self, term):
         return Sym(self.simplify(term) if self.simplify is not None else term)
 
+    def _module_function(self, name):
+        """FunctionDef of a module-level function of the repository module whose method is being evaluated"""
+        from . import symexp
+
+        mods = getattr(self, "_modules", None)
+        if not mods:
+            return None
+        prog = symexp._CTX.get("program")
+        if prog is None:
+            return None
+        for mname in mods:
+            m = prog.modules.get(mname)
+            fi = m.functions.get(name) if m is not None else None
+            if fi is not None and not getattr(fi, "is_lambda", False):
+                return fi.node
+        return None
+
+    def _note_module(self, fnode):
+        from . import symexp
+
+        fi = symexp._CTX["index"].get(id(fnode))
+        if fi is not None:
+            mods = getattr(self, "_modules", None)
+            if mods is None:
+                mods = self._modules = []
+            mn = fi.module if isinstance(fi.module, str) else getattr(fi.module, "name", None)
+            if mn and mn not in mods:
+                mods.append(mn)
+
     # -- running a method -------------------------------------------------------------
     def call_method(self, fnode, args, kwargs=None):
+        self._note_module(fnode)
         if kwargs:
             return self._run_function(fnode, list(args), kwargs, self.self_obj)
         env = Env()
@@ -462,7 +492,14 @@ class PEval:
         if isinstance(e, ast.Name):
             if e.id in ("True", "False", "None"):
                 return {"True": True, "False": False, "None": None}[e.id]
-            return env.get(e.id)
+            try:
+                return env.get(e.id)
+            except Undecided:
+                # a (private) function of the module the evaluated method lives in
+                fn = self._module_function(e.id)
+                if fn is None:
+                    raise
+                return Closure(fn, Env(), any(isinstance(n, (ast.Yield, ast.YieldFrom)) for n in ast.walk(fn)))
         if isinstance(e, (ast.Tuple, ast.List)):
             out = []
             for x in e.elts:
@@ -780,10 +817,19 @@ class PEval:
                 raise Undecided("chunk into %r parts" % (n,))
             d = d.term if isinstance(d, Sym) else d
             return (Sym(("ch", x.term, 0, d)), Sym(("ch", x.term, 1, d)))
+        if fn_text == "torch.argsort" or (isinstance(e.func, ast.Attribute) and e.func.attr == "argsort" and fn_text != "torch.argsort"):
+            v = self.ev(e.args[0], env) if fn_text == "torch.argsort" else self.ev(e.func.value, env)
+            if isinstance(v, Index):
+                # the inverse permutation of an index set that is a permutation of all positions
+                return Index(("inv", v.name))
+            raise Undecided("argsort of %r" % (v,))
         if fn_text in ("torch.cat", "torch.concat", "torch.concatenate"):
             parts = self.iterate(self.ev(e.args[0], env))
             d = kw.get("dim", self.ev(e.args[1], env) if len(e.args) > 1 else 0)
             d = d.term if isinstance(d, Sym) else d
+            if parts and all(isinstance(x, Index) for x in parts):
+                # the concatenation of index buffers: a (composite) index set, positions in the order written
+                return Index(("cat",) + tuple(x.name for x in parts))
             if not all(isinstance(x, Sym) for x in parts):
                 raise Undecided("cat of non-tensors")
             terms = tuple(x.term for x in parts if x.term != ("empty",))
